@@ -10,6 +10,7 @@ import PC.Drv.Merge
 import PC.Drv.Load
 import PC.Drv.Plan
 import PC.Drv.Api
+import PC.Drv.OsStop
 /-! `pcdriver <component>`: reads protocol lines on stdin, prints `model ||| verdict` per line. -/
 open PC.Drv
 
@@ -30,6 +31,7 @@ def main (args : List String) : IO UInt32 := do
   | ["load"] => loop PC.Drv.Load.step stdin stdout (); return 0
   | ["plan"] => loop PC.Drv.Plan.step stdin stdout (); return 0
   | ["api"] => loop PC.Drv.Api.step stdin stdout (); return 0
+  | ["osstop"] => loop PC.Drv.OsStop.step stdin stdout (); return 0
   | ["merge"] => loop PC.Drv.Merge.step stdin stdout (); return 0
   | ["update"] => loop PC.Drv.Update.step stdin stdout {}; return 0
   | _ => IO.eprintln "usage: pcdriver <component>"; return 2
